@@ -29,7 +29,7 @@ COMPONENTS = {"real": ["pel.peltool.peltool.main() in-process"],
               "stub": ["directory enumeration order (SimFS)", "stdout capture"]}
 ASSUMPTIONS = ["which of several files whose names contain the id --delete removes is not constrained (readdir dependent)",
                "--json without selection: which PELs get an output is not judged (C07); only names/locations of created files are"]
-PROBES = ["json_second_directory", "json_clean", "dir_name_contains_id", "json_fault_fired:error", "json_fault_fired:crash_after", "delete_hit", "delete_miss", "delete_all", "json_same_dir", "json_out_dir", "nested_same_id", "id_inner_substring",
+PROBES = ["symlink_in_pel_dir", "delete_unusual_id", "json_second_directory", "json_clean", "dir_name_contains_id", "json_fault_fired:error", "json_fault_fired:crash_after", "delete_hit", "delete_miss", "delete_all", "json_same_dir", "json_out_dir", "nested_same_id", "id_inner_substring",
           "delete_multi_match"]
 
 READ_MODES = ["-l", "-a", "-n", "-i", "--bmc-id", "--plid", "--src", "--src-exclude", "-lx", "-ax", "-f", "-fx"]
@@ -52,6 +52,18 @@ def gen_plan(rng, tier, run):
         e = rng.choice(eids) if eids and rng.random() < 0.6 else pelgen.gen_id(rng)
         nm = rng.choice(["notes-%08X.txt", "%08X", "x%08Xy", "%08X.json"]) % e
         tree.append({"path": "D/" + nm, "raw_hex": rng.choice([b"", b"hello\n", b"PH", bytes(80)]).hex(), "embeds": e in eids})
+    # symbolic links directly in the PEL directory, pointing at PELs stored elsewhere (archive, another directory)
+    targets = [t for t in tree if "recipe" in t and t["path"].count("/") >= 2]
+    for _ in range(rng.choice([0, 0, 1, 2])):
+        r = pelgen.gen_pel(rng, max_sections=2, eid=rng.choice(eids) if eids and rng.random() < 0.5 else None)
+        tgt = {"path": "X/store/" + common.bmc_name(r), "recipe": r}
+        if targets and rng.random() < 0.5:
+            tgt = rng.choice(targets)
+        else:
+            tree.append(tgt)
+        nm = rng.choice([common.bmc_name(tgt["recipe"]), "link-%08X" % tgt["recipe"]["eid"], "current"])
+        if not any(t["path"] == "D/" + nm for t in tree):
+            tree.append({"path": "D/" + nm, "link_to": tgt["path"], "recipe_of_target": tgt["recipe"]})
     tree.append({"path": "OUT", "dir": True})
     tree.append({"path": "E", "dir": True})                       # a second, unrelated PEL directory
     for f in common.gen_store(rng, rng.randint(0, 2), style="bmc", max_sections=2):
@@ -72,6 +84,10 @@ def gen_plan(rng, tier, run):
             known = eids + [t["recipe"]["eid"] for t in tree if "recipe" in t]
             e = rng.choice(known) if known and rng.random() < 0.75 else pelgen.gen_id(rng)
             op["arg"] = rng.choice(["%08X", "0x%08X", "%08x"]) % e
+            if rng.random() < 0.15:
+                # unusual spellings: too short with prefix, too long, glob metacharacters
+                op["arg"] = rng.choice(["0x%06X" % (e & 0xFFFFFF), "%010X" % e, ("%08X" % e)[:7] + "?", "????????", "*" + ("%08X" % e)[1:],
+                                        "[0-9]" + ("%08X" % e)[5:], ("%08X" % e)[:6] + "\\d"])
         elif m == "--bmc-id":
             rs = [t["recipe"] for t in tree if "recipe" in t]
             op["arg"] = str(rng.choice(rs)["bmc_id"] if rs and rng.random() < 0.7 else rng.randrange(1, 10 ** 6))
@@ -156,6 +172,7 @@ def execute(plan):
         stats[k] = stats.get(k, 0) + n
     vio = []
     eids_by_path = {t["path"]: t["recipe"]["eid"] for t in plan["tree"] if "recipe" in t}
+    eids_by_path.update({t["path"]: t["recipe_of_target"]["eid"] for t in plan["tree"] if "link_to" in t})
     for t in plan["tree"]:
         if t.get("nested_same_id"):
             bump("nested_same_id")
@@ -182,9 +199,15 @@ def execute(plan):
                 w.mkdir(real(t["path"]))
             elif "recipe" in t:
                 w.put(real(t["path"]), pelgen.build(t["recipe"]))
+            elif "link_to" in t:
+                pass
             else:
                 w.put(real(t["path"]), bytes.fromhex(t["raw_hex"]))
         w.mkdir(dname)
+        for t in plan["tree"]:
+            if "link_to" in t:
+                w.symlink(real(t["path"]), real(t["link_to"]))
+                bump("symlink_in_pel_dir")
         json_outputs = set()  # files created by earlier --json invocations
         created_eid = {}     # path -> eid for PEL files (by construction)
         for p, e in eids_by_path.items():
@@ -224,7 +247,15 @@ def execute(plan):
                     bump("read_mode_transient_mutation")
                 trace.append(m + ":ro")
             elif m == "-d":
-                E = norm_id(op["arg"])
+                core = norm_id(op["arg"])
+                try:
+                    val = int(core, 16)
+                    E = "%08X" % val if val < (1 << 32) else core
+                except ValueError:
+                    E = core                    # not a hex number: only a name containing it literally can be meant
+                wellformed = len(core) == 8 and E == core
+                if not wellformed:
+                    bump("delete_unusual_id")
                 top_matching = [p for p in before if p.startswith("D/") and "/" not in p[2:] and E in p[2:] and before[p][0] != "d"]
                 if added:
                     vio.append(V("delete-created-files", ctx))
@@ -234,9 +265,9 @@ def execute(plan):
                     if not (p in top_matching):
                         vio.append(V("delete-wrong-file", "--delete %s removed %s (top-level matching names: %s)" % (op["arg"], p, top_matching)))
                 nf = "PEL not found" in r.stdout
-                if top_matching and not removed and r.exit == 0 and not r.exc:
+                if wellformed and top_matching and not removed and r.exit == 0 and not r.exc:
                     vio.append(V("delete-missed", "--delete %s removed nothing although %s match; stdout=%r" % (op["arg"], top_matching, r.stdout[:100])))
-                if not top_matching and not nf and r.exit == 0:
+                if wellformed and not top_matching and not nf and r.exit == 0:
                     vio.append(V("delete-no-notfound", "--delete %s: no top-level name contains the id but 'PEL not found' was not printed; stdout=%r" % (op["arg"], r.stdout[:100])))
                 if removed and nf:
                     vio.append(V("delete-notfound-but-removed", ctx))
@@ -248,14 +279,17 @@ def execute(plan):
                 top_files = sorted(p for p in before if p.startswith("D/") and "/" not in p[2:] and before[p][0] == "f")
                 if added:
                     vio.append(V("delete-all-created-files", ctx))
-                if removed != top_files:
-                    vio.append(V("delete-all-wrong-set", "--delete-all removed %s, top-level regular files were %s" % (removed, top_files)))
+                top_links = sorted(p for p in before if p.startswith("D/") and "/" not in p[2:] and before[p][0] == "l")
+                # symbolic links directly in the directory may go or stay (not regular files, but isfile() follows
+                # them); what they point to must stay
+                if not (set(top_files) <= set(removed) <= set(top_files) | set(top_links)):
+                    vio.append(V("delete-all-wrong-set", "--delete-all removed %s, top-level regular files were %s (links %s)" % (removed, top_files, top_links)))
                 bump("delete_all")
                 trace.append("-D:%d" % min(3, len(removed)))
             elif m in ("-j", "-jo", "-jc", "-jE", "-jEc"):
                 outdir = "D" if m == "-j" else "OUT"
                 indir = "E" if m in ("-jE", "-jEc") else "D"
-                top_inputs = {p[2:] for p in before if p.startswith(indir + "/") and "/" not in p[2:] and before[p][0] == "f"}
+                top_inputs = {p[2:] for p in before if p.startswith(indir + "/") and "/" not in p[2:] and before[p][0] in ("f", "l")}
                 if m in ("-jc", "-jEc"):
                     # --clean may remove top-level inputs of ITS OWN directory (whether each removal was justified is
                     # C12's business); nothing else may disappear
